@@ -1,5 +1,6 @@
 import Drpc.Manager.Dispatch
 import Drpc.Props.C03
+import Drpc.Props.C11
 /-
   C02 — Streams on a reused connection are isolated from each other.
   Property theorems about the two guards that implement isolation (the manager's dispatch by
@@ -81,5 +82,16 @@ theorem no_cross_delivery (s : St) (t : Tid) (streamSid pktSid : U64) (k : Byte)
 example : dispatch (some 5#64) 4#64 kindMessage = .dropOld ∧ dispatch (some 5#64) 5#64 kindMessage = .deliver ∧
     dispatch (some 5#64) 6#64 kindInvoke = .toInvokeQueue ∧ dispatch (some 5#64) 6#64 kindCancel = .waitForStream := by
   decide
+
+/-- Per-call metadata is part of an RPC's data: the server attaches to the stream it creates for an
+    invoke only the metadata packet that carried that invoke's own stream id.  Metadata sent for any
+    other id on the same connection (for example by a call that was abandoned between its metadata and
+    its invoke) never reaches the handler of a different RPC.  (Model: `Drpc.Metadata.newServerStream`,
+    tied by the scoping family of the meta suite.) -/
+theorem metadata_of_other_rpc_not_attached (pre : List Drpc.Metadata.Pkt) (inv : Drpc.Metadata.Pkt)
+    (rest : List Drpc.Metadata.Pkt) (hinv : inv.kind = Drpc.Metadata.kindInvoke) (hpre : Drpc.Metadata.Quiet pre)
+    (hother : ∀ p ∈ pre, p.kind = Drpc.Metadata.kindInvokeMetadata → p.sid ≠ inv.sid) :
+    Drpc.Metadata.newServerStream none (pre ++ inv :: rest) = .stream inv.sid inv.data none rest :=
+  Drpc.Props.C11.abandoned_metadata_not_inherited pre inv rest hinv hpre hother
 
 end Drpc.Props.C02
